@@ -45,6 +45,11 @@ QUICK_SC = ["ssl3-rsa", "tls10-dhe_rsa", "tls11-ecdhe_rsa-clientauth",
             "tls13-alpn-tickets", "tls12-ecdhe_rsa-npn"]
 FAIL_SC = ["fail-nosuite", "fail-version", "fail-tamper"]
 
+# payloads that fill records of every size class: a few bytes, more than
+# the read-ahead of BufferedSocket (4096), more than one full record
+flavours.PING = mon.keystream("c14/ping", 6000)
+flavours.PONG = mon.keystream("c14/pong", 2 ** 14 + 700)
+
 VARIANTS = ["recv1", "recv2", "recv3", "recv5", "recv_rand", "send1",
             "send_rand", "wb_read3", "wb_write2", "wb_both", "sched_rev",
             "sched_ahead0", "sched_ahead1", "sched_random", "frag1", "frag2",
@@ -290,6 +295,17 @@ def run_variant(sc, label, variant, rng, tamper=False):
         def tweak(p, fl):
             p.c.recordSize = n
             p.s.recordSize = n
+    inner_tweak = tweak
+
+    def tweak(p, fl):
+        if tamper or sc.name.startswith("fail-"):
+            # in a failing script one end goes away while the other may be
+            # in the middle of a long write: whether that write ends in
+            # EPIPE or is followed by reading the peer's alert is a fact
+            # of the transport's timing (C17's subject), not of framing
+            p.link.peer_gone_errno = None
+        if inner_tweak:
+            inner_tweak(p, fl)
     R = scn.run(sc, label, mitm=mitm, client_sock=csock, server_sock=ssock,
                 tweak=tweak, schedule=schedule, rng=rng, max_steps=400000)
     R.injected = (R.p.csock.n_wouldblock + R.p.ssock.n_wouldblock,
@@ -381,6 +397,8 @@ def run_asm(sc, label, variant="asm"):
         kw = dict(client_sock=dict(recv_script=lambda s, w, a: 1),
                   server_sock=dict(recv_script=lambda s, w, a: 1))
     p = Pair(**kw)
+    if sc.name.startswith("fail-"):
+        p.link.peer_gone_errno = None
     fl = sc.flavor(st)
     extra = []
     if variant != "asm":
@@ -394,10 +412,12 @@ def run_asm(sc, label, variant="asm"):
             extra = [("hs", p.c.send_keyupdate_request(
                 KeyUpdateMessageType.update_requested))]
     a_c = Asm(p.c, [("hs", fl.client_gen(p.c)),
-                    ("write", b"ping-from-client" * 3), ("read", 48)] +
+                    ("write", flavours.PING),
+                    ("read", len(flavours.PONG))] +
               extra + [("write", b"bye"), ("close",)])
-    a_s = Asm(p.s, [("hs", fl.server_gen(p.s)), ("read", 48),
-                    ("write", b"pong-from-server" * 3), ("read", 3),
+    a_s = Asm(p.s, [("hs", fl.server_gen(p.s)),
+                    ("read", len(flavours.PING)),
+                    ("write", flavours.PONG), ("read", 3),
                     ("read_until_closed",)])
     views = {}
     idle = 0
@@ -461,8 +481,8 @@ def run_threads(sc, label, chunk=0, api="generator"):
                 blocking(fl.client_gen(c))
             res["c"]["hs"] = True
             res["c"]["view"] = scn.full_view(c)
-            c.write(b"ping-from-client" * 3)
-            res["c"]["data"] = c.read(None, 48)
+            c.write(flavours.PING)
+            res["c"]["data"] = c.read(None, len(flavours.PONG))
             c.write(b"bye")
             c.close()
         except Exception as e:   # noqa
@@ -476,8 +496,8 @@ def run_threads(sc, label, chunk=0, api="generator"):
                 blocking(fl.server_gen(s))
             res["s"]["hs"] = True
             res["s"]["view"] = scn.full_view(s)
-            r = s.read(None, 48)
-            s.write(b"pong-from-server" * 3)
+            r = s.read(None, len(flavours.PING))
+            s.write(flavours.PONG)
             r2 = s.read(None, 3)
             res["s"]["data"] = (r, r2)
             s.close()
